@@ -969,6 +969,109 @@ theorem C15_session_decides_for_the_login_name (c : Cfg) (norm : Str → Option 
 
 /-! ## non-vacuity: concrete configurations and messages -/
 
+/-! ### `table.email_with_domain` as entitlement table (round 10)
+
+Every value is the WHOLE key, written as a local part, in front of a configured domain.  An account whose name holds
+an at-sign (an address of another realm) is therefore given quoted local parts only: no value is the address of
+the account named by the local part of that name. -/
+
+theorem C15_with_domain_values (ds : List Str) (k v : Str) :
+    v ∈ emailWithDomain ds k ↔ ∃ d ∈ ds, v = quoteMbox k ++ AT :: d := by
+  simp only [emailWithDomain, List.mem_map]
+  constructor
+  · rintro ⟨d, hd, rfl⟩; exact ⟨d, hd, rfl⟩
+  · rintro ⟨d, hd, rfl⟩; exact ⟨d, hd, rfl⟩
+
+theorem quoteMbox_of_at {k : Str} (h : AT ∈ k) : quoteMbox k = DQ :: (escapeAll k ++ [DQ]) := by
+  have : k.any isSpecial = true := List.any_eq_true.mpr ⟨AT, h, by decide⟩
+  simp [quoteMbox, this]
+
+/-- An account named by an address: every value of the table starts with the quotation mark (the whole name is
+the local part) — in particular it is none of the plain addresses `<anything not starting with a quote>`. -/
+theorem C15_with_domain_address_name_gets_quoted_local_part (ds : List Str) (k v : Str) (hat : AT ∈ k)
+    (hv : v ∈ emailWithDomain ds k) : v.head? = some DQ := by
+  obtain ⟨d, _, rfl⟩ := (C15_with_domain_values ds k v).mp hv
+  rw [quoteMbox_of_at hat]; rfl
+
+theorem C15_with_domain_address_name_shares_no_plain_address (ds : List Str) (k addr : Str) (hat : AT ∈ k)
+    (hplain : addr.head? ≠ some DQ) : addr ∉ emailWithDomain ds k := fun h =>
+  hplain (C15_with_domain_address_name_gets_quoted_local_part ds k addr hat h)
+
+/-- a name without specials is used as it is: `bob` owns `bob@<domain>` for every configured domain -/
+theorem C15_with_domain_plain_name (ds : List Str) (k d : Str) (hk : k.any isSpecial = false) (hd : d ∈ ds) :
+    k ++ AT :: d ∈ emailWithDomain ds k := by
+  refine (C15_with_domain_values ds k _).mpr ⟨d, hd, ?_⟩
+  simp [quoteMbox, hk]
+
+/-! ### authorize_sender next to other checks of the group (round 10)
+
+The runner's merge of the verdicts: the command fails iff SOME check rejected — whatever the other checks say
+(quarantine, a reason without action, nothing) and whichever goroutine finished first. -/
+
+theorem verdict_beq : (Verdict.none == Verdict.reject) = false ∧ (Verdict.quarantine == Verdict.reject) = false ∧
+    (Verdict.none == Verdict.quarantine) = false ∧ (Verdict.reject == Verdict.quarantine) = false := by decide
+
+theorem foldl_merge_rErr (l : List Verdict) : ∀ m : Merge,
+    (l.foldl Merge.step m).rErr = (m.rErr || l.any (· == .reject)) := by
+  induction l with
+  | nil => intro m; simp
+  | cons v rest ih =>
+    intro m
+    simp only [List.foldl_cons, ih, List.any_cons]
+    cases v <;> simp [Merge.step, verdict_beq]
+
+theorem foldl_merge_qErr (l : List Verdict) : ∀ m : Merge,
+    (l.foldl Merge.step m).qErr = (m.qErr || l.any (· == .quarantine)) := by
+  induction l with
+  | nil => intro m; simp
+  | cons v rest ih =>
+    intro m
+    simp only [List.foldl_cons, ih, List.any_cons]
+    cases v <;> simp [Merge.step, verdict_beq]
+
+theorem mergeResults_fails_iff (l : List Verdict) : (mergeResults l).1 = l.any (· == .reject) := by
+  unfold mergeResults
+  simp only [foldl_merge_rErr]
+  cases h : l.any (· == .reject) <;> simp
+
+theorem mergeResults_flag (l : List Verdict) :
+    (mergeResults l).2 = (!l.any (· == .reject) && l.any (· == .quarantine)) := by
+  unfold mergeResults
+  simp only [foldl_merge_rErr, foldl_merge_qErr]
+  cases h : l.any (· == .reject) <;> simp
+
+/-- The decision does not depend on which goroutine finished first. -/
+theorem C15_merge_order_independent {l₁ l₂ : List Verdict} (h : l₁.Perm l₂) : mergeResults l₁ = mergeResults l₂ := by
+  apply Prod.ext
+  · rw [mergeResults_fails_iff, mergeResults_fails_iff, h.any_eq]
+  · rw [mergeResults_flag, mergeResults_flag, h.any_eq, h.any_eq]
+
+/-- A rejection of ANY check of the group fails the command: no verdict of a neighbour, finishing before or
+after, takes it back. -/
+theorem C15_refusal_survives_any_neighbour (before after : List Verdict) :
+    mergeResults (before ++ Verdict.reject :: after) = (true, false) := by
+  have h1 : (mergeResults (before ++ Verdict.reject :: after)).1 = true := by
+    rw [mergeResults_fails_iff]; simp
+  have h2 : (mergeResults (before ++ Verdict.reject :: after)).2 = false := by
+    rw [mergeResults_flag]; simp
+  exact Prod.ext h1 h2
+
+/-- With the actions that reject (the defaults): a client that is not entitled to the envelope sender is refused
+at the sender stage whatever the other checks of the group answer and however fast they are. -/
+theorem C15_not_entitled_sender_refused_next_to_any_checks (c : Cfg) (user : Option Str) (mailFrom : Str)
+    (before after : List Verdict)
+    (hr : (checkSender c user mailFrom).reject = true) (hq : (checkSender c user mailFrom).quarantine = false) :
+    (mergeResults (before ++ (checkSender c user mailFrom).verdict :: after)).1 = true := by
+  have : (checkSender c user mailFrom).verdict = .reject := by simp [Result.verdict, hr, hq]
+  rw [this, C15_refusal_survives_any_neighbour]
+
+theorem C15_not_entitled_author_refused_next_to_any_checks (c : Cfg) (user : Option Str) (h : Header)
+    (before after : List Verdict)
+    (hr : (checkBody c user h).reject = true) (hq : (checkBody c user h).quarantine = false) :
+    (mergeResults (before ++ (checkBody c user h).verdict :: after)).1 = true := by
+  have : (checkBody c user h).verdict = .reject := by simp [Result.verdict, hr, hq]
+  rw [this, C15_refusal_survives_any_neighbour]
+
 section Examples
 
 def s (x : String) : Str := x.toList.map Char.toNat
@@ -1133,6 +1236,20 @@ example : saslPlain some exVerify [] (s "admin") (s "admin") = some (s "admin") 
 example : saslPlain some exVerify (s "admin") (s "admin") (s "admin") = some (s "admin") := by decide
 example : saslPlain some exVerify (s "Admin") (s "admin") (s "admin") = none := by decide
 example : saslPlain some exVerify [] (s "Admin") (s "admin") = none := by decide
+
+-- table.email_with_domain: `bob` owns bob@example.org / bob@example.com; the account `bob@example.net` does not
+def wdCfg : Cfg := { exCfg with userToEmail := emailWithDomainTable [s "example.org", s "example.com"] }
+example : checkSender wdCfg (some (s "bob")) (s "bob@example.com") = pass := by decide
+example : checkSender wdCfg (some (s "bob@example.net")) (s "bob@example.org") = refuse exCfg .noMatch := by decide
+example : emailWithDomain [s "example.org"] (s "bob@example.net") = [s "\"bob@example.net\"@example.org"] := by decide
+example : AT ∈ s "bob@example.net" ∧ (s "bob@example.org").head? ≠ some DQ := by decide
+
+-- next to a quarantining neighbour, in either order: refused; an entitled sender: passed and flagged
+example : mergeResults [.quarantine, (checkSender wdCfg (some (s "bob@example.net")) (s "bob@example.org")).verdict] = (true, false) := by decide
+example : mergeResults [(checkSender wdCfg (some (s "bob@example.net")) (s "bob@example.org")).verdict, .quarantine] = (true, false) := by decide
+example : mergeResults [.quarantine, (checkSender wdCfg (some (s "bob")) (s "bob@example.org")).verdict] = (false, true) := by decide
+example : (checkSender wdCfg (some (s "bob@example.net")) (s "bob@example.org")).reject = true ∧
+    (checkSender wdCfg (some (s "bob@example.net")) (s "bob@example.org")).quarantine = false := by decide
 
 end Examples
 
